@@ -190,3 +190,10 @@ Example flat_values_add_up_somewhere :
              mk_gsample [] 100 0] in
   NoDup [1; 2] /\ sumk Z (flat_spec Z Z.eqb false None ss) [1; 2] = 8.
 Proof. split; [repeat constructor; simpl; intuition discriminate|vm_compute; reflexivity]. Qed.
+
+(* cum never exceeds the sum of all sample values (non-negative values): no cum percentage above 100% *)
+Theorem cum_le_sum_of_values : forall K keqb div kept ss n,
+  (forall s, In s ss -> 0 <= pick K div s) ->
+  cum_spec K keqb div kept ss n <= sumf K (pick K div) ss.
+Proof. exact cum_le_sum_lemma. Qed.
+Print Assumptions cum_le_sum_of_values.
